@@ -16,7 +16,12 @@
 #include <stddef.h>
 #include <stdint.h>
 
+#if defined(ROOT_SIM_CORE_VERIF) && defined(VERIF_B_TOTAL_EXP)
+/// Monitors may build the allocator with a smaller arena to enumerate it exhaustively
+#define B_TOTAL_EXP VERIF_B_TOTAL_EXP
+#else
 #define B_TOTAL_EXP 16U
+#endif
 #define B_BLOCK_EXP 6U
 
 #define next_exp_of_2(i) (sizeof(i) * CHAR_BIT - intrinsics_clz(i))
